@@ -123,7 +123,8 @@ class SizeConstraint(Constraint):
         yield WarningEvent(error=error)
 
         # skip the rest of the region; the skipped bytes count for the enclosing regions
-        padding = self.size_max - self.size_already
+        # (nothing is skipped - and nothing un-counted - if the region turns out to be overrun already)
+        padding = max(0, self.size_max - self.size_already)
         for constraint in all_size_constraints:
             if constraint is not self and not constraint.is_obsolete:
                 constraint.size_already += padding
